@@ -48,7 +48,8 @@ Section Acc.
   Fixpoint star (fuel : nat) (f : list oev -> list (list oev)) (s : list (list oev)) : list (list oev) :=
     match fuel with
     | 0 => s
-    | S k => star k f (union_rem s (fold_right (fun r acc => union_rem (f r) acc) [] s))
+    | S k => let s' := union_rem s (fold_right (fun r acc => union_rem (f r) acc) [] s) in
+             if Nat.eqb (length s') (length s) then s else star k f s'      (* no new remainder: closed *)
     end.
 
   Fixpoint rem (s : stmt) (l : list oev) {struct s} : list (list oev) :=
